@@ -17,6 +17,24 @@ def handle(c):
     if k == 'sites_range':
         r = AminoAcidSeqRecord(Seq(c['seq']))
         return [[s, list(rg)] for s, rg in r.find_all_enzymatic_cleave_sites_with_ranges(rule=c['rule'], exception=c['exc'])]
+    if k == 'aux':
+        r = AminoAcidSeqRecord(Seq(c['seq']))
+        kw = dict(rule=c['rule'], exception=c['exc'], exception_sites=c['given'])
+        out = {}
+        out['all'] = r.find_all_cleave_and_stop_sites(**kw)
+        try:
+            out['all_range'] = [[a, list(b)] for a, b in r.find_all_cleave_and_stop_sites_with_range(**kw)]
+        except ValueError:
+            out['all_range'] = 'ValueError'
+        out['first'] = r.find_first_cleave_or_stop_site(**kw)
+        try:
+            fr = r.find_first_cleave_or_stop_site_with_range(**kw)
+            out['first_range'] = [fr[0], list(fr[1]) if fr[1] is not None else None]
+        except ValueError:
+            out['first_range'] = 'ValueError'
+        out['first_cleave'] = r.find_first_enzymatic_cleave_site(rule=c['rule'], exception=c['exc'], start=c['start'])
+        out['exc_sites'] = list(r.get_enzymatic_cleave_exception_sites(c['exc']))
+        return out
     if k == 'cleave':
         r = AminoAcidSeqRecord(Seq(c['seq']))
         ps = r.enzymatic_cleave(rule=c['rule'], exception=c['exc'], miscleavage=c['k'], min_mw=c['min_mw'],
